@@ -166,6 +166,12 @@ func checkCopyShape(p *Program, pkg *packages.Package, fn *FuncDecl, r *Reporter
 	if as, ok := ts.Assign.(*ast.AssignStmt); ok {
 		bound, _ = as.Lhs[0].(*ast.Ident)
 	}
+	var subject types.Object // the value that is switched on: returning it is returning the same object
+	if e := typeSwitchSubject(ts); e != nil {
+		if id, ok := ast.Unparen(e).(*ast.Ident); ok {
+			subject = info.ObjectOf(id)
+		}
+	}
 	cases, _ := typeSwitchCases(info, ts)
 	for tn, cc := range cases {
 		w, ok := want[tn.Name()]
@@ -186,7 +192,7 @@ func checkCopyShape(p *Program, pkg *packages.Package, fn *FuncDecl, r *Reporter
 				found = true
 				res := ast.Unparen(ret.Results[0])
 				id, isIdent := res.(*ast.Ident)
-				same := isIdent && bound != nil && id.Name == bound.Name
+				same := isIdent && ((bound != nil && id.Name == bound.Name) || (subject != nil && info.ObjectOf(id) == subject))
 				if w == "same" && !same {
 					okAll = false
 					why = fn.Name() + " must return the array/map itself (composites are shared by reference), returns " + types.ExprString(res)
